@@ -24,7 +24,8 @@
 (* Values (DESIGN 3.5).  Counter: the ring 0..W-1 (exhaustive W = 16;       *)
 (* conformance W = 16000: x = hi*1000 + lo <-> hi*2^60 + lo mod 2^64, so    *)
 (* 15999 <-> u64::MAX, 8000 <-> 2^63).  f64: integers n <-> n/4 (exact      *)
-(* dyadic arithmetic) and three symbolic specials with the IEEE table.      *)
+(* dyadic arithmetic; 0 is +0.0) and four symbolic values NaN, +Inf, -Inf,  *)
+(* -0.0 with the IEEE table (signed zeros included: bit-exact cells).       *)
 (***************************************************************************)
 EXTENDS Integers, Sequences, FiniteSets, TLC
 
